@@ -49,6 +49,8 @@ func init() {
 			Run: func(P *Program, R *Report) { structuresCopyRule(P, R, "C17.m") }},
 		Rule{ID: "C17.g", Explain: "CanProve tests the residue conditions and safe primality (C16.f).",
 			Run: func(P *Program, R *Report) { canProveRule(P, R, "C17.g") }},
+		Rule{ID: "C17.n", Explain: "the challenges of the key-proof components are a function of (a, b, index, bitlen) alone: GetHashNumber builds its list afresh with the counter starting at 0 (the obligations of C15.b, same rule) - a pooled scratch list that keeps the counter makes every challenge longer than one block depend on earlier calls, and honest key proofs fail.",
+			Run: func(P *Program, R *Report) { sharedRule(P, R, "C15", "C15.b", "C17.n", nil) }},
 	)
 }
 
